@@ -264,7 +264,8 @@ func c14down(i int) *network.ServerIdentity {
 }
 
 // doAllWho sends a C14Who request with Client.SendToAll to a roster described
-// by the pattern: u = the next server of the case, d = an unreachable node.
+// by the pattern: u = the next server of the case, l = the same with its identity
+// given as a literal (no ID), d = an unreachable node.
 // Every server answers with its own address, so the observation says for every
 // roster position whose reply the list holds there: "own", "nil" (nothing),
 // "of<j>" (the reply of roster entry j), "missing" (the list is shorter),
@@ -280,6 +281,12 @@ func (e *c14env) doAllWho(tk []string) string {
 		switch {
 		case ch == 'u' && up < len(e.srvs):
 			sis = append(sis, e.srvs[up].ServerIdentity)
+			up++
+		case ch == 'l' && up < len(e.srvs):
+			// the next server, its identity written as a literal (as read from a file or built by
+			// hand): same key, address and URL, the deprecated ID field left empty
+			o := e.srvs[up].ServerIdentity
+			sis = append(sis, &network.ServerIdentity{Public: o.Public, Address: o.Address, Description: o.Description, URL: o.URL})
 			up++
 		case ch == 'd':
 			sis = append(sis, c14down(dn))
@@ -1093,7 +1100,7 @@ func c14oracle(cs *h.Case) {
 			ok := len(f) == len(pat)+2 && f[0] == fmt.Sprintf("len=%d", len(pat))
 			anyDown := strings.Contains(pat, "d")
 			for k := 0; ok && k < len(pat); k++ {
-				ok = f[1+k] == string(pat[k])+":"+map[bool]string{true: "own", false: "nil"}[pat[k] == 'u']
+				ok = f[1+k] == string(pat[k])+":"+map[bool]string{true: "own", false: "nil"}[pat[k] != 'd']
 			}
 			if !ok {
 				cs.Fail("c14:wrong-reply:all", fmt.Sprintf("request %d %q: the replies of SendToAll are not those of the servers at their roster positions: %s", i, op, obs))
@@ -1605,8 +1612,10 @@ func c14genCases(c *h.Ctx, yield func(*h.Case)) {
 		// (seed C14r5-B): every reply at its server's position, nothing where the Send failed
 		cs := &h.Case{Class: "corpus:send-to-all-positions"}
 		cs.Ops = append(cs.Ops, "c14 allwho t1 k1 3 41 udu", "c14 allwho t1 o1 3 42 duu", "c14 allwho t1 k1 3 43 uud",
-			"c14 allwho t1 o1 3 44 uuu", "c14 allwho t1 k1 3 45 uddu", "c14 allwho t1 o1 2 46 dd")
-		cstate(cs, "k1", "o1")
+			"c14 allwho t1 o1 3 44 uuu", "c14 allwho t1 k1 3 45 uddu", "c14 allwho t1 o1 2 46 dd",
+			// identities without ID (seed C14r5-A): a kept client must still talk to the server it was given
+			"c14 allwho t1 k1 3 47 lll", "c14 allwho t1 k2 3 48 uldl", "c14 allwho t1 o1 3 49 ll")
+		cstate(cs, "k1", "k2", "o1")
 		emit(cs)
 	}
 
@@ -1871,7 +1880,7 @@ func c14genCases(c *h.Ctx, yield func(*h.Case)) {
 				pat, ups := "", 0
 				for len(pat) < nn+2 && (ups < nn || r.Intn(2) == 0) {
 					if ups < nn && r.Intn(3) != 0 {
-						pat += "u"
+						pat += []string{"u", "l"}[r.Intn(2)]
 						ups++
 					} else {
 						pat += "d"
